@@ -37,6 +37,8 @@ pub struct Inner {
     pub wsched: WriteSched,
     /// fail the write call that would accept the byte with this absolute index
     pub wfail_at: Option<usize>,
+    /// error kind of the scripted failure; kinds a caller might be tempted to retry (WouldBlock, TimedOut) fail ONCE
+    pub wfail_kind: io::ErrorKind,
     pub accepted_total: usize,
     pub read_calls: usize,
     /// (asked, got) of every read call since the last take_sys()
@@ -65,6 +67,7 @@ impl Script {
             rsched: ReadSched::Greedy,
             wsched: WriteSched::All,
             wfail_at: None,
+            wfail_kind: io::ErrorKind::BrokenPipe,
             accepted_total: 0,
             read_calls: 0,
             sys: Vec::new(),
@@ -103,6 +106,12 @@ impl Script {
     }
     pub fn set_wfail_at(&self, at: Option<usize>) {
         self.0.borrow_mut().wfail_at = at;
+    }
+    pub fn set_wfail_kind(&self, kind: &str) {
+        self.0.borrow_mut().wfail_kind = match kind {
+            "wouldblock" => io::ErrorKind::WouldBlock, "timedout" => io::ErrorKind::TimedOut, "reset" => io::ErrorKind::ConnectionReset,
+            "aborted" => io::ErrorKind::ConnectionAborted, "other" => io::ErrorKind::Other, _ => io::ErrorKind::BrokenPipe,
+        };
     }
 }
 
@@ -168,7 +177,9 @@ impl Write for ScriptStream {
                 let before = at - g.accepted_total;
                 if before == 0 {
                     g.write_failed = true;
-                    return Err(io::Error::new(io::ErrorKind::BrokenPipe, "scripted write failure"));
+                    let kind = g.wfail_kind;
+                    if kind == io::ErrorKind::WouldBlock || kind == io::ErrorKind::TimedOut { g.wfail_at = None; }
+                    return Err(io::Error::new(kind, "scripted write failure"));
                 }
                 n = before;
             }
